@@ -28,6 +28,8 @@ type Network struct {
 	Steps   int
 	// Observers are called after every block with its result.
 	Observers []func(*Result)
+	// ClientCfg, if set, replaces DefaultClientCfg in Connect.
+	ClientCfg *ClientCfg
 }
 
 // Config of a TM client created by Connect.
@@ -98,8 +100,12 @@ func (n *Network) CreateClient(on, of *Chain, cfg ClientCfg) error {
 
 // Connect creates clients in both directions.
 func (n *Network) Connect(a, b *Chain) {
-	must(n.CreateClient(a, b, DefaultClientCfg))
-	must(n.CreateClient(b, a, DefaultClientCfg))
+	cfg := DefaultClientCfg
+	if n.ClientCfg != nil {
+		cfg = *n.ClientCfg
+	}
+	must(n.CreateClient(a, b, cfg))
+	must(n.CreateClient(b, a, cfg))
 }
 
 // SetRules sets routing rules on c by governance execution.
